@@ -53,9 +53,12 @@ fn a22tcp__with_eih<const N: usize>(kind: &CipherKind, key: &[u8], identity_keys
 struct ServerUserManager<const N: usize> { _u: u8 }
 impl<const N: usize> ServerUserManager<N> {
     uninterp spec fn registered(&self, u: ServerUser<N>) -> bool;
+    /// the user table as a function of the identity hash (HashMap lookup)
+    uninterp spec fn lookup(&self, hash: Seq<u8>) -> Option<ServerUser<N>>;
     #[verifier::external_body]
     fn get_user_by_hash(&self, user_hash: &[u8]) -> (r: Option<&ServerUser<N>>)
-        ensures r matches Some(u) ==> self.registered(*u) && u.identity_hash@ == user_hash@
+        ensures r matches Some(u) ==> self.registered(*u) && u.identity_hash@ == user_hash@,
+            match self.lookup(user_hash@) { Some(u) => r == Some(&u), None => r is None },
     { unimplemented!() }
     uninterp spec fn count(&self) -> nat;
     #[verifier::external_body]
@@ -207,6 +210,7 @@ fn a22__validate_timestamp(timestamp: u64) -> (r: Result<(), String>)
         r is Ok ==> ts_fresh(timestamp),
         //#C10
         (clock_ok() && ts_fresh(timestamp)) ==> r is Ok,
+        r is Ok ==> clock_ok(),
 {
     let now = a22__now().map_err(|e| verif_string())?;
     let diff = now.abs_diff(timestamp);
@@ -300,6 +304,12 @@ fn a22tcp__new_decoder_with_eih<const N: usize>(
             &&& d.wf() && d.abs() == St::Length && d.alg() == alg_of(kind) && is_init(d.n())
         },
         final(identity).salt == old(identity).salt, final(identity).request_salt == old(identity).request_salt,
+        //#C06 C03
+        // functional: the decoder exists iff the cipher has identity headers and the table holds a user for the decrypted hash
+        match (kind.has_eih(), user_manager.lookup(eih_plain(kind, key@, salt@, eih@.take(16)))) {
+            (true, Some(u)) => r is Ok && final(identity).user == Some(u),
+            _ => r is Err,
+        },
 {
     let identity_sub_key = blake3::derive_key("shadowsocks 2022 identity subkey", &verif_concat2(key, salt));
     let user_hash = &mut [0; 16];
@@ -353,6 +363,60 @@ pub struct AEADCipherCodec<const N: usize> {
 //@@ octo-squirrel/src/codec/shadowsocks/tcp.rs:66-234  impl AEADCipherCodec  sha=6372e03ad2777fea
 spec fn hs_eih_len<const N: usize>(mode: Mode, context: Context<N>) -> int { if mode is Server && context.kind.has_eih() && context.has_users() { 16 } else { 0 } }
 spec fn hs_fixed_len(mode: Mode, n: int) -> int { 1 + 8 + (if mode is Server { 0int } else { n }) + 2 + 16 }
+/// SIP022 3.1: outcome of the first decode of a 2022 stream as a function of the buffered bytes `s` (|s| >= N), the replay cache and the clock:
+///   [salt N][identity header 16, multi-user AES servers only][fixed header: type 1, timestamp 8, (request salt N, responses only), length 2; sealed, nonce 0]
+///   [first chunk of `length` bytes; sealed, nonce 1]   -- for a request: address, padding length 2, padding, initial payload
+enum Hs22 { Bad, Wait, Accept(Seq<u8>, Option<AddrV>, Seq<u8>, nat) }
+spec fn zero12() -> Seq<u8> { Seq::new(12, |i: int| 0u8) }
+spec fn hs22_tail(server_first: bool, sk: Seq<u8>, pt: Seq<u8>, consumed: nat) -> Hs22 {
+    if !server_first { Hs22::Accept(sk, None, pt, consumed) } else {
+        match parse5(pt) {
+            None => Hs22::Bad,
+            Some((a, n)) => if pt.len() - n < 2 { Hs22::Bad } else {
+                let pl = be_val(pt.subrange(n as int, (n + 2) as int));
+                if pt.len() - n - 2 < pl { Hs22::Bad } else { Hs22::Accept(sk, Some(a), pt.skip((n + 2 + pl) as int), consumed) }
+            },
+        }
+    }
+}
+/// stage 3: the fixed header `h` is open; `off` = offset of the first chunk, `n` = salt length
+spec fn hs22_h(alg: int, mode: Mode, own_salt: Seq<u8>, addr_none: bool, s: Seq<u8>, off: int, n: int, sk: Seq<u8>, h: Seq<u8>) -> Hs22 {
+    if h[0] != mode_code(other_mode(mode)) { Hs22::Bad }
+    else if !(clock_ok() && ts_fresh(be_val(h.subrange(1, 9)) as u64)) { Hs22::Bad }
+    else if mode is Client && h.subrange(9, 9 + n) != own_salt { Hs22::Bad }
+    else {
+        let len = be_val(h.subrange(h.len() - 2, h.len() as int));
+        if s.len() - off < len + 16 { Hs22::Wait } else {
+            match aead_open(alg, sk, inc_seq(zero12()), Seq::empty(), s.subrange(off, (off + len + 16) as int)) {
+                None => Hs22::Bad,
+                Some(pt) => hs22_tail(mode is Server && addr_none, sk, pt, (off + len + 16) as nat),
+            }
+        }
+    }
+}
+/// stage 2: the session sub-key `sk` is known
+spec fn hs22_k(alg: int, mode: Mode, own_salt: Seq<u8>, addr_none: bool, s: Seq<u8>, hoff: int, off: int, n: int, sk: Seq<u8>) -> Hs22 {
+    match aead_open(alg, sk, zero12(), Seq::empty(), s.subrange(hoff, off)) {
+        None => Hs22::Bad,
+        Some(h) => hs22_h(alg, mode, own_salt, addr_none, s, off, n, sk, h),
+    }
+}
+spec fn hs22<const N: usize>(ctx: Context<N>, mode: Mode, own_salt: Seq<u8>, addr_none: bool, seen: Set<Seq<u8>>, s: Seq<u8>) -> Hs22 {
+    let e = hs_eih_len(mode, ctx);
+    let f = hs_fixed_len(mode, N as int);
+    let salt = s.take(N as int);
+    if s.len() < N + e + f { Hs22::Bad }
+    else if seen.contains(salt) { Hs22::Bad }
+    else {
+        let ukey: Option<Seq<u8>> = if e == 16 {
+            match ctx.user_manager.unwrap().lookup(eih_plain(ctx.kind, ctx.key@, salt, s.subrange(N as int, N + 16))) { Some(u) => Some(u.key@), None => None }
+        } else { Some(ctx.key@) };
+        match ukey {
+            None => Hs22::Bad,
+            Some(k) => hs22_k(alg_of(ctx.kind), mode, own_salt, addr_none, s, N + e, N + e + f, N as int, s2022_subkey(ctx.kind, k, salt)),
+        }
+    }
+}
 /// legacy AEAD stream, first decode (shadowsocks.org AEAD spec): [salt][chunks..]; the sub-key is HKDF-SHA1(key, salt, "ss-subkey");
 /// whatever complete chunks follow the salt are delivered by the same call (no stall), an incomplete salt is left untouched
 spec fn legacy_first<const N: usize>(o: AEADCipherCodec<N>, c: Context<N>, s: Seq<u8>, f: AEADCipherCodec<N>, rest: Seq<u8>, r: anyhow::Result<Option<BytesMut>>) -> bool {
@@ -556,7 +620,20 @@ impl<const N: usize> AEADCipherCodec<N> {
                 let e = hs_eih_len(old(session).mode, *context);
                 aead_open(d.alg(), d.key(), Seq::new(12, |i: int| 0u8), Seq::empty(), old(src)@.subrange(N + e, N + e + hs_fixed_len(old(session).mode, N as int))) matches Some(h)
                         && h.len() >= 11 && h[0] == mode_code(other_mode(old(session).mode)) && ts_fresh(be_val(h.subrange(1, 9)) as u64) }),
+            /*H<*/
+            //#C03 C04 C05 C06 C10 C01 C14
+            // refinement: accepted, refused or waiting exactly as SIP022 says, delivering exactly the initial payload and the target address
+            match hs22(*context, old(session).mode, old(session).identity.salt@, old(session).address is None, old(vcache).salts, old(src)@) {
+                Hs22::Bad => r is Err,
+                Hs22::Wait => r matches Ok(None),
+                Hs22::Accept(sk, a, pay, n) => r matches Ok(Some(b)) && b@ == pay && final(src)@ == old(src)@.skip(n as int)
+                    && final(self).decoder.unwrap().key() == sk
+                    && (a matches Some(v) ==> (final(session).address matches Some(ad) && absaddr(ad) == v)),
+            },
+            /*>H*/
     {
+        let ghost s00 = src@;
+        let ghost fl = hs_fixed_len(old(session).mode, N as int);
         let tag_size = context.kind.tag_size();
         let request_salt_len = if let Mode::Server = session.mode { 0 } else { N };
         let mut require_eih = false;
@@ -603,7 +680,13 @@ impl<const N: usize> AEADCipherCodec<N> {
             else { assert(session.identity.user is Some); }
             assert(hct =~= old(src)@.subrange(N + eih_len, N + eih_len + hs_fixed_len(old(session).mode, N as int)));
         }
+        let ghost hsv = hs22(*context, old(session).mode, old(session).identity.salt@, old(session).address is None, old(vcache).salts, s00);
+        /*H<*/ proof {
+            assert(zero12() == Seq::new(12, |i: int| 0u8));
+            assert(hsv == hs22_k(da, old(session).mode, old(session).identity.salt@, old(session).address is None, s00, N + eih_len, N + eih_len + fl, N as int, dk));
+        } /*>H*/
         decoder.auth.open(&mut header).map_err(|e| verif_err())?;
+        /*H<*/ proof { assert(hsv == hs22_h(da, old(session).mode, old(session).identity.salt@, old(session).address is None, s00, N + eih_len + fl, N as int, dk, header@)); } /*>H*/
         proof { assert(aead_open(da, dk, Seq::new(12, |i: int| 0u8), Seq::empty(), hct) == Some(header@)); assert(header@.len() == 1 + 8 + request_salt_len + 2); }
         let ghost hp = header@;
         let stream_type = header.get_u8();
@@ -614,28 +697,57 @@ impl<const N: usize> AEADCipherCodec<N> {
         }
         a22__validate_timestamp(header.get_u64()).map_err(verif_err_from)?;
         if matches!(session.mode, Mode::Client) {
-            header.copy_to_slice(session.identity.request_salt.as_mut().unwrap());
+            let mut request_salt = [0; N];
+            let ghost hb = header@;
+            header.copy_to_slice(&mut request_salt);
+            proof { assert(hb =~= hp.skip(9)); assert(request_salt@ =~= hp.subrange(9, 9 + N)); }
             /*R2*/
+            if request_salt != session.identity.salt {
+                return Err(verif_err())
+            }
+            session.identity.request_salt = Some(request_salt);
         };
+        let ghost hrem = header@;
+        proof { assert(hrem =~= hp.subrange(hp.len() - 2, hp.len() as int)); lemma_be_val_bound(hrem); lemma_pow256_vals(); }
         let length = header.get_u16() as usize;
+        proof { assert(hrem.take(2) =~= hrem); assert(length == be_val(hp.subrange(hp.len() - 2, hp.len() as int)));
+            /*H<*/ let off = N + eih_len + fl;
+            assert(hp[0] == mode_code(other_mode(old(session).mode)));
+            assert(clock_ok() && ts_fresh(be_val(hp.subrange(1, 9)) as u64));
+            assert(old(session).mode is Client ==> hp.subrange(9, 9 + N) == old(session).identity.salt@);
+            assert(hsv == (if s00.len() - off < length + 16 { Hs22::Wait } else {
+                match aead_open(da, dk, inc_seq(zero12()), Seq::empty(), s00.subrange(off, (off + length + 16) as int)) {
+                    None => Hs22::Bad,
+                    Some(pt) => hs22_tail(old(session).mode is Server && old(session).address is None, dk, pt, (off + length + 16) as nat),
+                } })); /*>H*/
+        }
         if _src.remaining() >= length + tag_size {
             context.set_nonce(salt, Tracked(vcache));
             let position = _src.position();
             let src = _src.into_inner();
             src.advance(position as usize);
             let mut via = src.split_to(length + tag_size);
+            let ghost vct = via@;
+            proof { assert(vct =~= s00.subrange(N + eih_len + fl, (N + eih_len + fl + length + 16) as int)); assert(decoder.n() == zero12()); assert(src@ =~= s00.skip((N + eih_len + fl + length + 16) as int)); }
             decoder.auth.open(&mut via).map_err(|e| verif_err())?;
+            let ghost vpt = via@;
+            /*H<*/ proof { assert(hsv == hs22_tail(old(session).mode is Server && old(session).address is None, dk, vpt, (N + eih_len + fl + length + 16) as nat)); } /*>H*/
             self.decoder = Some(decoder);
             if matches!(session.mode, Mode::Server) && session.address.is_none() {
                 session.address = Some(address__decode(&mut via)?);
+                let ghost pn = parse5(vpt).unwrap().1;
+                proof { assert(via@ == vpt.skip(pn as int)); }
                 if via.remaining() < 2 {
                     return Err(verif_err());
                 }
+                proof { assert(via@.take(2) =~= vpt.subrange(pn as int, (pn + 2) as int)); lemma_be_val_bound(via@.take(2)); lemma_pow256_vals(); }
                 let padding_len = via.get_u16();
+                proof { assert(via@ =~= vpt.skip((pn + 2) as int)); }
                 if via.remaining() < padding_len as usize {
                     return Err(verif_err());
                 }
                 via.advance(padding_len as usize);
+                proof { assert(via@ =~= vpt.skip((pn + 2 + padding_len) as int)); }
             }
             return Ok(Some(via));
         }
